@@ -78,6 +78,15 @@ def _stop_op(state, want_state, target_kind, brng):
     return op
 
 
+def _pause_root(state):
+    def op(w):
+        root = w.root()
+        if root is not None and root['state'] == 'RUNNING':
+            state['paused_first'] = True
+            w.op_pause(root['id'])
+    return op
+
+
 def _descendants(rows, wf_id):
     out = []
     todo = [wf_id]
@@ -119,8 +128,25 @@ def run_case(case):
         kind = 'sub' if (P.get('children') and brng.random() < 0.4) \
             else 'root'
         state = {}
-        run = ec.execute(case, plan=[{'at': b, 'op': _stop_op(
-            state, want, kind, brng)}])
+        plan = [{'at': b, 'op': _stop_op(state, want, kind, brng)}]
+        if b > 2 and brng.random() < 0.3:
+            # the tree was paused from above before it is cancelled:
+            # PAUSED executions are unfinished executions
+            want, kind = 'CANCELLED', 'root'
+            plan = [{'at': brng.randint(1, b - 1), 'op': _pause_root(state)},
+                    {'at': b, 'op': _stop_op(state, want, kind, brng)}]
+        phases = []
+        if len(plan) == 2:
+            stop = plan[1]['op']
+
+            def late_stop(w, stop=stop, state=state):
+                # the paused run went quiet before boundary b was reached
+                if 'holder' in state or not state.get('paused_first'):
+                    return False
+                stop(w)
+                return True
+            phases = [late_stop]
+        run = ec.execute(case, plan=plan, phases=phases)
         res['executions'] += 1
         _collect(res, run)
         if run.inconclusive:
@@ -134,6 +160,9 @@ def run_case(case):
                                           stop_acked=acked))
         if not (acked and was_live):
             continue
+        if state.get('paused_first'):
+            res['monitor_evaluations']['stop-after-pause'] = \
+                res['monitor_evaluations'].get('stop-after-pause', 0) + 1
         rows = run.rows
         tgt = rows['wf'].get(state['target'])
         mev = res['monitor_evaluations']
